@@ -820,7 +820,8 @@ def compare(ctx, name, base, s0, h0, kind, other, detail, mapping=None):
     else:
         sig = classify_failure(base, s0, s1)
     ctx.cov['disagreements_checked'] += 1
-    if sig in (KF_COMPONENT, KF_TIE) and sum(1 for x in ctx.notes if x.startswith('known finding met')) < 12:
+    if sig in (KF_COMPONENT, KF_TIE) and (sig, name) not in _state.setdefault('kf_noted', set()) and len(_state['kf_noted']) < 12:
+        _state['kf_noted'].add((sig, name))
         ctx.notes.append(f'known finding met in the relational stream ({sig.split("/")[-1]}): {name} [{kind}]: {s0} vs {s1}')
     shrunk_from = None
     if sig not in (KF_COMPONENT, KF_TIE) and s1 != s0 and not s1.startswith('<') and len(base) > 4 \
@@ -844,6 +845,31 @@ def compare(ctx, name, base, s0, h0, kind, other, detail, mapping=None):
               'str_a': s0, 'str_b': s1, 'detail': str(detail)[:300],
               'mapping': sorted(mapping.items()) if mapping else None})
     return False
+
+
+FORMAT_SPECS = ['a', 'A', 'h', '!s', '!b', '!z', '!x', 'aAh!z']
+
+
+def compare_formats(ctx, name, base, other, mapping):
+    """the other deterministic renderings of `format(mol, spec)` (observe_at) must not depend on the description either"""
+    from .. import wire
+    for spec in FORMAT_SPECS:
+        try:
+            f0, f1 = format(base, spec), format(other, spec)
+        except Exception as e:  # noqa
+            f0, f1 = 'a', f'<{type(e).__name__}: {e}>'
+        ctx.count(('R', 'format', spec, f0, tuple(sorted(mapping.items()))), True)
+        ctx.dist('R:format-spec')
+        if f0 == f1:
+            continue
+        sig = classify_failure(base, f0, f1)
+        if sig not in (KF_COMPONENT, KF_TIE):
+            sig = sig.replace('canonical-string-differs', f'format-{spec}-differs')
+        ctx.cov['disagreements_checked'] += 1
+        ctx.fail(sig, f'format(mol, {spec!r}): {name}: {f0!r} vs {f1!r}',
+                 {'kind': 'two-descriptions', 'how': 'renumber+reinsert', 'spec': spec, 'name': name,
+                  'a': wire.mol_to_ints(base), 'b': wire.mol_to_ints(other), 'str_a': f0, 'str_b': f1,
+                  'mapping': sorted(mapping.items())})
 
 
 def relational_molecules(ctx):
@@ -915,7 +941,9 @@ def relational(ctx, mols=None, nvar=None):
             except Exception as e:  # noqa
                 ctx.dist('R:skipped:reorder:' + type(e).__name__)
                 continue
-            compare(ctx, name, base, s0, h0, 'renumber+reinsert', c, sorted(mapping.items())[:12], mapping)
+            ok = compare(ctx, name, base, s0, h0, 'renumber+reinsert', c, sorted(mapping.items())[:12], mapping)
+            if ok and r == 0:
+                compare_formats(ctx, name, base, c, mapping)
         try:
             t, m2 = reread_own(rng, base)
             compare(ctx, name, base, s0, h0, 'reread-own-random-spelling', m2, t)
@@ -1107,9 +1135,10 @@ def probe(inp):
         note = ' second = first renamed by the recorded mapping, atoms/bonds/tetrahedral parity re-verified: ' + \
             ('yes' if not bad else 'NO ' + '; '.join(bad[:4]))
         same = same and not bad
-    sa, sb = str(a), str(b)
-    eq = (a == b)
-    he = hash(a) == hash(b)
+    spec = inp.get('spec')
+    sa, sb = (format(a, spec), format(b, spec)) if spec else (str(a), str(b))
+    eq = (a == b) or bool(spec)
+    he = hash(a) == hash(b) or bool(spec)
     fails = same and (sa != sb or not eq or not he)
     return fails, (f'two descriptions of one structure (constitution isomorphism verified independently: {same};{note}); '
-                   f'str: {sa!r} vs {sb!r}; ==: {eq}; hash equal: {he}')
+                   f'{"format(mol, %r)" % spec if spec else "str"}: {sa!r} vs {sb!r}; ==: {eq}; hash equal: {he}')
